@@ -20,7 +20,14 @@ func (d Directive) BodyError(msg string) *jerr.JApiError {
 }
 
 func (d Directive) BodyErrorIndex(msg string, i uint) *jerr.JApiError {
-	return d.makeError(msg, d.BodyCoords.File(), d.BodyCoords.begin+bytes.Index(i))
+	idx := d.BodyCoords.begin + bytes.Index(i)
+	if f := d.BodyCoords.File(); f != nil && idx >= f.Content().LenIndex() {
+		// The index does not even point into the file (it can be relative to the
+		// schema of another user type which was checked together with this one):
+		// the most precise place we are sure about is the beginning of the body.
+		idx = d.BodyCoords.begin
+	}
+	return d.makeError(msg, d.BodyCoords.File(), idx)
 }
 
 func (d Directive) ParameterError(msg string) *jerr.JApiError {
